@@ -31,9 +31,52 @@ class SNested(Sym):
         self.s = s
 
 
+# _nested_dicts_to_dotted_keys reports an empty mapping as a leaf value *unconverted* (only lists are made hashable by it): a caller that puts
+# the pairs into a set has to convert the values first
+HASHABLE_CLAUSE = "signac.diff.diff_jobs#ensures:leaf_values_are_made_hashable_before_the_pairs_are_put_into_a_set_(an_empty_mapping_is_a_leaf_value)"
+
+
+class SPairPart(Sym):
+    """the key / the value / the hashable form of the value of one generic flattened pair"""
+
+    def __init__(self, x, part):
+        self.x, self.part = x, part
+
+
+def stub_to_hashable(interp, b):
+    o = b["obj"]
+    if isinstance(o, SPairPart) and o.part in ("value", "hashable-value"):
+        return SPairPart(o.x, "hashable-value")
+    raise Unsupported("_to_hashable on this value")
+
+
 class DiffCtx(JobCtx):
+    def comprehension(self, interp, node, frame):
+        import ast
+        if isinstance(node, ast.SetComp) and len(node.generators) == 1 and not node.generators[0].ifs:
+            g = node.generators[0]
+            it = interp.ev(g.iter, frame)
+            if isinstance(it, SPairSeq):
+                # {f(key, value) for key, value in <flattened state point>}: evaluated for one generic pair; the result is the pair set of the
+                # state point iff every pair is kept as (its key, its value or the hashable form of its value) -- a Pair is compared as the
+                # hashable form anyway, _to_hashable being the identity on everything that is hashable already
+                x = z3.Const(interp.ex.fresh_name("gen_pair"), Pair)
+                f = interp._comp_frame(frame)
+                interp.assign_target(g.target, (SPairPart(x, "key"), SPairPart(x, "value")), f)
+                el = interp.ev(node.elt, f)
+                ok = isinstance(el, tuple) and len(el) == 2 and all(isinstance(e, SPairPart) and e.x is x for e in el) \
+                    and el[0].part == "key" and el[1].part in ("value", "hashable-value")
+                if not ok:
+                    raise Unsupported(f"set of something other than the flattened pairs: {el!r}"[:200])
+                interp.ex.oblige(HASHABLE_CLAUSE, z3.BoolVal(el[1].part == "hashable-value"))
+                sp = it.sp
+                return SymSet(lambda y: PAIRS(sp, y), Pair)
+        return super().comprehension(interp, node, frame)
+
     def setify(self, interp, v):
         if isinstance(v, SPairSeq):
+            # set(<flattened pairs>) as they come: raises TypeError for a state point holding an empty mapping (finding F31)
+            interp.ex.oblige(HASHABLE_CLAUSE, False)
             sp = v.sp
             return SymSet(lambda x: PAIRS(sp, x), Pair)
         return super().setify(interp, v)
@@ -69,7 +112,8 @@ class DiffJobs(Contract):
     properties = ("C18",)
     ctx_class = DiffCtx
     inline = (f"{JOB}.Job.id", f"{JOB}.Job.statepoint", f"{JOB}.Job.path", f"{JOB}.Job._statepoint_filename")
-    callees = {"signac._utility._nested_dicts_to_dotted_keys": stub_flatten, "signac._utility._dotted_dict_to_nested_dicts": stub_nest}
+    callees = {"signac._utility._nested_dicts_to_dotted_keys": stub_flatten, "signac._utility._dotted_dict_to_nested_dicts": stub_nest,
+               "signac._utility._to_hashable": stub_to_hashable}
     assumptions = ("argument count enumerated 0..3 (bounded in the number of jobs, unbounded in their content)", "jobs passed have pairwise distinct ids")
 
     def cases(self):
